@@ -474,12 +474,22 @@ impl Sched {
 
     fn candidates(&self, st: &mut State, exclude_stalled: bool) -> Vec<usize> {
         let mut v = Vec::with_capacity(st.threads.len());
+        // Spinning threads are de-prioritised, not excluded: if nothing else can run (e.g. a
+        // spuriously woken worker while every other thread is blocked) a spinner runs again.
+        let mut spinners: Vec<usize> = Vec::new();
         let progress = st.progress;
         let step = st.step;
         for i in 0..st.threads.len() {
             let ok = match &st.threads[i].state {
                 TState::Runnable => true,
-                TState::Spinning { since } => *since < progress,
+                TState::Spinning { since } => {
+                    if *since < progress {
+                        true
+                    } else {
+                        spinners.push(i);
+                        false
+                    }
+                }
                 TState::BlockedPred(p, _) => p(),
                 _ => false,
             };
@@ -494,6 +504,9 @@ impl Sched {
             } else {
                 st.threads[i].cand_since = None;
             }
+        }
+        if v.is_empty() && !spinners.is_empty() {
+            return spinners;
         }
         v
     }
@@ -712,6 +725,23 @@ impl Sched {
                     st.threads[me].priority = low;
                 }
                 st.stats.forced_preemptions += 1;
+            }
+        }
+        // A spinning thread yields to the longest-waiting other candidate (so that busy-wait
+        // episodes round-robin over all runnable threads instead of ping-ponging between two).
+        if site::class_of(site_id) == site::CLASS_SPIN && st.cfg.explicit.is_none() {
+            let mut oldest: Option<(u64, usize)> = None;
+            for c in cands.iter() {
+                if *c == me {
+                    continue;
+                }
+                let since = st.threads[*c].cand_since.unwrap_or(step);
+                if oldest.map(|(s0, _)| since < s0).unwrap_or(true) {
+                    oldest = Some((since, *c));
+                }
+            }
+            if let Some((_, c)) = oldest {
+                drawn = c;
             }
         }
         // Global starvation bound: a thread that has been runnable for `4 * max_run` steps without
